@@ -144,7 +144,11 @@ def tlc(module, cfg=None, workers=None, env=None, timeout=900, simulate=None, de
     _tlc_seq[0] += 1
     meta = os.path.join(BUILDROOT, "tlc", "%d_%d_%s" % (os.getpid(), _tlc_seq[0], module))
     os.makedirs(meta, exist_ok=True)
-    cmd = ["java", "-XX:+UseParallelGC", "-Xmx" + heap, "-Xss64m"]
+    # keep the JVM's own thread count proportional to the TLC workers: many trace validations run
+    # side by side and the default (one GC/JIT thread per core each) oversubscribes the machine
+    w = workers or 1
+    gc = ["-XX:+UseSerialGC"] if w == 1 else ["-XX:+UseParallelGC", "-XX:ParallelGCThreads=%d" % min(4, w)]
+    cmd = ["java"] + gc + ["-XX:CICompilerCount=2", "-Xmx" + heap, "-Xss64m"]
     if dfs:
         cmd.append("-Dtlc2.tool.queue.IStateQueue=StateDeque")
     cmd += ["-cp", TLA_CP, "tlc2.TLC", "-metadir", meta, "-noGenerateSpecTE"]
